@@ -32,7 +32,7 @@ EXHAUSTIVE_SUBSPACES = {"quick": ["all 256 %XX escapes in path/query/fragment/us
 TIERS = {"quick": dict(nshards=16, urls=2500, triples=900), "thorough": dict(nshards=48, urls=40000, triples=15000)}
 CH = ["a", "é", "☃", "😀", " ", "+", "&", "=", ";", ":", "@", "!", "$", "'", "(", ")", "*", ",", "~", ".", "-", "_", " ", " ", "%41", "%C3%A9", "%2F", "%25",
       "%FF", "%80", "%3F", "%23", "%26", "%3D", "%2B", "%40", "%3A", "%20", "%7E", "%e2%98%83", "%E2%82", "%F0%9F%98", "%E2", "%C3", "[", "]", "{", "|", "\\", "^", "`", "<", ">", '"', "ß", "İ"]
-HOSTS = [("ascii", "example.com"), ("idn", "☃.net"), ("puny", "xn--n3h.net"), ("ipv4", "127.0.0.1"), ("ipv6", "[::1]"), ("mixed", "EXAMPLE.com"), ("ascii", "a.b.c"), ("idn", "bücher.example"),
+HOSTS = [("ascii", "example.com"), ("idn", "☃.net"), ("puny", "xn--n3h.net"), ("ipv4", "127.0.0.1"), ("ipv6", "[::1]"), ("mixed", "EXAMPLE.com"), ("mixed", "XN--N3H.net"), ("mixed", "Xn--n3h.Example.COM"), ("ascii", "a.b.c"), ("idn", "bücher.example"),
          # labels that look like punycode but do not decode stay as they are, next to labels that do
          ("badpuny", "xn--a-.example"), ("badpuny", "xn--n3h.xn--a-.net"), ("badpuny", "good.xn--zz--")]
 
@@ -109,6 +109,17 @@ def check_iri(W, rec, x, hk="ascii"):
             return
         if iri_to_uri(a2) != a2 or not a2.isascii():
             rec.violation("C15/iri_to_uri-not-idempotent", f"a2={a2!r}", case, monitor="law")
+            return
+        # the other direction first (the text as a client sent it, host in any letter case): one step reaches the fixpoint
+        if a.lower() != x.lower():
+            return  # (x is not a URI as it stands - raw blanks, non-ASCII: only the laws above speak about it)
+        rec.observe("uri_laws_checked_from_the_text_as_sent")
+        b0 = uri_to_iri(x)
+        if uri_to_iri(b0) != b0:
+            rec.violation("C15/uri_to_iri-not-idempotent", f"{x!r} -> {b0!r} -> {uri_to_iri(b0)!r}", case, monitor="law")
+            return
+        if uri_to_iri(iri_to_uri(b0)) != b0:
+            rec.violation("C15/no-fixpoint-after-one-step", f"{x!r}: uri_to_iri gives {b0!r}, back through iri_to_uri {iri_to_uri(b0)!r} and again {uri_to_iri(iri_to_uri(b0))!r}", case, monitor="law")
             return
         sx, sa, sb, sa2 = sem(x), sem(a), sem(b), sem(a2)
         for name, other in (("uri", sa), ("iri", sb), ("uri2", sa2)):
